@@ -37,9 +37,10 @@ impl RaftIndexInnerManager {
             .await?;
         let meta = file.metadata().await?;
         //log::info!("index file len:{}",meta.len());
-        // the initial write below leaves 8 bytes of last_applied plus an empty record (9 bytes);
+        // the initial write below leaves 8 bytes of last_applied plus an empty record (9 bytes;
+        // 10 bytes when written by older versions, which length-prefixed the header);
         // anything longer holds a real record, however short, and must be read back
-        let (last_applied_log, raft_index) = if meta.len() <= 9 {
+        let (last_applied_log, raft_index) = if meta.len() <= 10 {
             //init write
             let index = RaftIndex::default();
             /*
@@ -54,10 +55,10 @@ impl RaftIndexInnerManager {
             */
             let mut buf = Vec::new();
             let mut writer = Writer::new(&mut buf);
-            let header_buf = id_to_bin(0);
-            writer.write_bytes(&header_buf)?;
             writer.write_message(&index)?;
             file.seek(std::io::SeekFrom::Start(0)).await?;
+            // the header is 8 raw bytes (last_applied), the record starts at offset 8
+            file.write_all(&id_to_bin(0)).await?;
             file.write_all(&buf).await?;
             file.flush().await?;
             let raft_index: RaftIndexDto = index.into();
